@@ -459,6 +459,11 @@ def nfa(
                 connect(compile(expr["expr"], cur), next)
                 cur = next
             if expr["max"] == -1:
+                if cur == from_:
+                    # {0,}: loop on a node of its own, like "*" does, so that the
+                    # repetition cannot re-enter alternatives that start at from_
+                    cur = node()
+                    edge(from_, cur)
                 connect(compile(expr["expr"], cur), cur)
             else:
                 for _i in range(expr["min"], expr["max"]):
